@@ -58,6 +58,12 @@ def bases(tier):
                 e = copy.deepcopy(cfg)
                 e['embedded'] = True
                 out.append(e)
+    # two instances of one non-unique middleware type at different levels: both stay in the stack, so what both
+    # provide conflicts
+    for ls in (['app', 'route'], ['outer', 'app'], ['app', 'app']):
+        cfg = {'mws': [dict(mw(l, 'N'), unique=False) for l in ls], 'endpoint': {'params': []}, 'render': None,
+               'url': [], 'app_res': [], 'route_res': [], 'outer_res': [], 'embedded': 'outer' in ls}
+        out.append(cfg)
     return out
 
 
@@ -208,6 +214,75 @@ def check(acc, h, label, cfg, construct, base=None):
                               % (res.status, res.raised), case)
 
 
+def render_error_items():
+    """A render_error function - on a Route or on the application's error handler - is a function outside the
+    render phase: one that requires `context` must be rejected where it is installed."""
+    out = []
+    for where in ('route', 'handler', 'handler-late'):
+        for role in ('req', 'def', 'kwreq', 'none'):
+            out.append(('render_error-context-%s:%s' % (role, where), {'where': where, 'role': role}, 'RE'))
+    return out
+
+
+def _render_error_fn(role):
+    ns = {}
+    sig = {'req': 'request, _error, context', 'def': 'request, _error, context=None',
+           'kwreq': 'request, _error, *, context', 'none': 'request, _error'}[role]
+    exec('def render_error(%s):\n    return _error\n' % sig, ns)
+    return ns['render_error']
+
+
+def check_render_error(acc, label, spec):
+    from clastic import Application, Route
+    from clastic.errors import ErrorHandler
+    acc.evaluated += 1
+    acc.transitions += 1
+    acc.validated += 1
+    fn = _render_error_fn(spec['role'])
+    must_reject = spec['role'] in ('req', 'kwreq')
+    from werkzeug.wrappers import Response
+    ep = lambda: Response('ok')
+
+    class EH(ErrorHandler):
+        def render_error(self, request, _error, **kw):
+            return fn(request, _error, **kw)
+    # the handler's render_error must carry the very signature under test
+    EH.render_error = staticmethod(fn)
+    try:
+        if spec['where'] == 'route':
+            app = Application([Route('/x', ep, render_error=fn)])
+        elif spec['where'] == 'handler':
+            app = Application([('/x', ep)], error_handler=EH())
+        else:
+            app = Application([('/x', ep)])
+            app.set_error_handler(EH())
+            app.add(('/y', ep))
+        built = None
+    except Exception as e:
+        built = e
+    got = 'accept' if built is None else 'reject:' + type(built).__name__
+    acc.outcome('%s->%s' % (label.split(':')[0], got))
+    case = {'label': label, 'spec': spec, 'kind': 'RE'}
+    if must_reject:
+        acc.add('nontrivial')
+        if built is None:
+            acc.violation('C04:accepted:%s' % label, 'a render_error function requiring `context` was accepted', case)
+    elif spec['role'] == 'def' and built is not None:
+        pass    # a defaulted `context` is not required; clastic refuses the mention anyway, which the statement allows
+    else:
+        if built is not None:
+            acc.violation('C04:rejected-valid:%s:%s' % (label, type(built).__name__),
+                          'valid render_error function rejected with %r' % (built,), case)
+        else:
+            from mc import wsgi
+            for path, code in (('/x', 200), ('/nope', 404)):
+                res = wsgi.call(app, path)
+                acc.transitions += 1
+                if res.raised is not None or res.code != code:
+                    acc.violation('C04:valid-config-fails:%s' % label, 'accepted configuration answered %s %r on %s'
+                                  % (res.status, res.raised, path), case)
+
+
 def work(tier):
     items = []
     for bi, base in enumerate(bases(tier)):
@@ -218,6 +293,7 @@ def work(tier):
         for label, c in misplacements(base):
             items.append((label, c, None))
             items.append((label, c, base))
+    items.extend(render_error_items())
     return items
 
 
@@ -236,6 +312,9 @@ def shard(tier, i, n, seed):
         if deadline_passed():
             acc.extra['cap_hit'] = 1
             return acc
+        if base == 'RE':
+            check_render_error(acc, label, cfg)
+            continue
         for construct in (constructs or (('list', 'add', 'bind')[k % 3],)):
             check(acc, h, label, cfg, construct, base)
         if k % 997 == i:
@@ -251,7 +330,8 @@ def finish(tier, merged, results):
         if not any(k.startswith('base->accept') for k in oc):
             raise common.InternalError('vacuous: base configurations not accepted')
     mult = 3
-    return {'space_size': len(work(tier)) * mult,
+    nre = len(render_error_items())
+    return {'space_size': (len(work(tier)) - nre) * mult + nre,
             'bounds': {'bases': len(bases(tier)), 'names': list(NAMES), 'constructions_per_item': mult},
             'distinct_nontrivial': merged['extra'].get('nontrivial', 0)}
 
@@ -260,7 +340,10 @@ def replay(case):
     common.setup_repo()
     acc = common.Acc()
     h = chain.Harness()
-    check(acc, h, case['label'], case['cfg'], case.get('construct', 'list'), case.get('base'))
+    if case.get('kind') == 'RE':
+        check_render_error(acc, case['label'], case['spec'])
+    else:
+        check(acc, h, case['label'], case['cfg'], case.get('construct', 'list'), case.get('base'))
     if acc.violations:
         return False, acc.violations[0]['desc']
     return True, 'ok'
